@@ -135,6 +135,13 @@ func (m *MultiEpoch) CountEpochs() int {
 func (m *MultiEpoch) GetEpochNumbers() []uint64 {
 	m.mu.RLock()
 	defer m.mu.RUnlock()
+	return m.getEpochNumbersLocked()
+}
+
+// getEpochNumbersLocked returns a list of epoch numbers, sorted from most recent to oldest.
+// The caller must hold m.mu (read or write): sync.RWMutex read locks must not be acquired
+// recursively, because a writer waiting between the two acquisitions blocks the second one forever.
+func (m *MultiEpoch) getEpochNumbersLocked() []uint64 {
 	var epochNumbers []uint64
 	for epochNumber := range m.epochs {
 		epochNumbers = append(epochNumbers, epochNumber)
@@ -148,7 +155,7 @@ func (m *MultiEpoch) GetEpochNumbers() []uint64 {
 func (m *MultiEpoch) GetMostRecentAvailableEpoch() (*Epoch, error) {
 	m.mu.RLock()
 	defer m.mu.RUnlock()
-	numbers := m.GetEpochNumbers()
+	numbers := m.getEpochNumbersLocked()
 	if len(numbers) > 0 {
 		return m.epochs[numbers[0]], nil
 	}
@@ -158,7 +165,7 @@ func (m *MultiEpoch) GetMostRecentAvailableEpoch() (*Epoch, error) {
 func (m *MultiEpoch) GetOldestAvailableEpoch() (*Epoch, error) {
 	m.mu.RLock()
 	defer m.mu.RUnlock()
-	numbers := m.GetEpochNumbers()
+	numbers := m.getEpochNumbersLocked()
 	if len(numbers) > 0 {
 		return m.epochs[numbers[len(numbers)-1]], nil
 	}
